@@ -295,6 +295,33 @@ func vfC06Run(run *vfkit.Run, cs vfC06Case) {
 	var callPkts []stanza.Packet
 	for i, rs := range cs.Routes {
 		i := i
+		h := HandlerFunc(func(s Sender, p stanza.Packet) {
+			mu.Lock()
+			calls = append(calls, i)
+			callPkts = append(callPkts, p)
+			mu.Unlock()
+		})
+		// the convenience constructors are part of the documented API: use them when the route starts with a name matcher
+		if len(rs.Matchers) >= 1 && rs.Matchers[0].Kind == "packet" && i%2 == 1 {
+			var rt *Route
+			if i%4 == 1 {
+				rt = router.HandleFunc(rs.Matchers[0].Args[0], h)
+			} else {
+				rt = router.Handle(rs.Matchers[0].Args[0], h)
+			}
+			for _, m := range rs.Matchers[1:] {
+				args := append([]string(nil), m.Args...)
+				switch m.Kind {
+				case "packet":
+					rt.Packet(args[0])
+				case "type":
+					rt.StanzaType(args...)
+				case "ns":
+					rt.IQNamespaces(args...)
+				}
+			}
+			continue
+		}
 		rt := router.NewRoute()
 		for _, m := range rs.Matchers {
 			args := append([]string(nil), m.Args...) // the library lower-cases the slice it is given in place
@@ -307,12 +334,7 @@ func vfC06Run(run *vfkit.Run, cs vfC06Case) {
 				rt.IQNamespaces(args...)
 			}
 		}
-		rt.HandlerFunc(func(s Sender, p stanza.Packet) {
-			mu.Lock()
-			calls = append(calls, i)
-			callPkts = append(callPkts, p)
-			mu.Unlock()
-		})
+		rt.HandlerFunc(h)
 	}
 	snd := &vfRecSender{}
 	want, decided := vfRefRoute(cs)
